@@ -44,7 +44,7 @@ static long g_cas_seen;          /* the word a failed compare_exchange observed 
 static bool onceev_cas(long *p, long expected, long desired)
 {
   long e = expected;
-  bool won = status_cas(p, &e, desired);
+  bool won = status_cas(p, e, desired);
   if (won) g_owes_set = true;
   g_cas_seen = e;
   return won;
